@@ -308,12 +308,15 @@ Shape(t, K) ==
     [] k = "tag" -> K[1] \o <<"`t`">>
     [] k = "arrow" -> (IF t[2] = "a" THEN <<"async">> ELSE <<>>) \o <<"(", ")", "=>">> \o K[1]
 
-RECURSIVE RenderMin(_, _)
-RenderMin(t, c) ==
-  IF Why(t, c) # ""
-    THEN <<"(">> \o RenderMin(t, InnerCtx(LComma)) \o <<")">>
-    ELSE Shape(t, [i \in 1..Len(Kids(t)) |->
-                     RenderMin(Kids(t)[i], KidCtx(t, i, c))])
+(* RM(t,c): the minimal rendering AND the reasons of its parentheses, in one pass *)
+RECURSIVE RM(_, _)
+RM(t, c) ==
+  LET w == Why(t, c) IN
+  IF w # ""
+    THEN LET r == RM(t, InnerCtx(LComma)) IN [ts |-> <<"(">> \o r.ts \o <<")">>, ls |-> r.ls \cup {w}]
+    ELSE LET K == [i \in 1..Len(Kids(t)) |-> RM(Kids(t)[i], KidCtx(t, i, c))] IN
+         [ts |-> Shape(t, [i \in 1..Len(Kids(t)) |-> K[i].ts]), ls |-> UNION {K[i].ls : i \in 1..Len(Kids(t))}]
+RenderMin(t, c) == RM(t, c).ts
 
 KCtx(t, i, c) == KidCtx(t, i, c)
 
@@ -326,18 +329,14 @@ FullKid(t, i) ==
   ELSE IF i = 1 /\ Kind(t) \in {"dot", "idx", "call"} /\ IsChainElem(x) /\ Oc(t) # "no" THEN RenderFull(x)
   ELSE <<"(">> \o RenderFull(x) \o <<")">>
 RenderFull(t) == Shape(t, [i \in 1..Len(Kids(t)) |-> FullKid(t, i)])
-RenderFullTop(t) == IF Kind(t) = "id" THEN RenderFull(t) ELSE <<"(">> \o RenderFull(t) \o <<")">>
+RenderFullTop(t) == IF Kind(t) = "id" /\ t[2] \notin {"let", "async"} THEN RenderFull(t) ELSE <<"(">> \o RenderFull(t) \o <<")">>
 
 (***************************************************************************)
 (* Hazard labels of a tree in a context: every reason for a parenthesis,   *)
 (* plus the token-gluing hazards (adjacent tokens that would lex           *)
 (* differently if printed without a space).                                *)
 (***************************************************************************)
-RECURSIVE ParenLabels(_, _)
-ParenLabels(t, c) ==
-  IF Why(t, c) # ""
-    THEN {Why(t, c)} \cup ParenLabels(t, InnerCtx(LComma))
-    ELSE UNION {ParenLabels(Kids(t)[i], KCtx(t, i, c)) : i \in 1..Len(Kids(t))}
+ParenLabels(t, c) == RM(t, c).ls
 
 FirstTok(ts) == IF Len(ts) = 0 THEN "" ELSE ts[1]
 LastTok(ts) == IF Len(ts) = 0 THEN "" ELSE ts[Len(ts)]
@@ -363,18 +362,32 @@ GlueLabels(ts) == {GlueLabel(ts[i], ts[i + 1]) : i \in 1..(Len(ts) - 1)} \ {""}
 (* `<!--` needs three tokens *)
 HtmlOpen(ts) == \E i \in 1..(Len(ts) - 2) : ts[i] = "<" /\ ts[i + 1] = "!" /\ ts[i + 2] = "--"
 
-Labels(t, c) ==
-  LET ts == RenderMin(t, c) IN
-  ParenLabels(t, c) \cup GlueLabels(ts) \cup (IF HtmlOpen(ts) THEN {"glue-html-comment-open"} ELSE {})
+(* labels given the result r of RM(t,c) *)
+LabelsOf(t, r) ==
+  r.ls \cup GlueLabels(r.ts) \cup (IF HtmlOpen(r.ts) THEN {"glue-html-comment-open"} ELSE {})
   \cup (IF HasId(t, {"let"}) THEN {"sloppy-let-ident"} ELSE {})
   \cup (IF HasId(t, {"async"}) THEN {"async-ident"} ELSE {})
+Labels(t, c) == LabelsOf(t, RM(t, c))
 
-(* literal operands of operators: esbuild folds these even without minification; the *)
-(* harness then compares trees modulo constant folding evaluated by V8               *)
+(* esbuild simplifies, even without minification, operators whose operand has a *)
+(* statically known type / truthiness / nullishness: -1, !0, typeof 1, "a"+"b",  *)
+(* `a++ ?? x` (a number is never nullish), `!typeof b`, `{} || x`, `1 ? a : b`.   *)
+(* Trees containing such a node carry the label "foldable"; for them (only) the   *)
+(* harness falls back to comparing probe traces when the output tree differs.     *)
+RECURSIVE TypeKnown(_)
+TypeKnown(t) ==
+  \/ Kind(t) \in {"num", "str", "tpl", "re", "fn", "afn", "cls", "obj0", "obj", "arr", "sparr", "arrow", "un", "upd", "new", "new0"}
+  \/ (Kind(t) = "bin" /\ t[2] \notin {"??", "||", "&&"})
+  \/ (Kind(t) = "bin" /\ t[2] \in {"??", "||", "&&"} /\ TypeKnown(t[3]) /\ TypeKnown(t[4]))
+  \/ (Kind(t) = "seq" /\ TypeKnown(t[3]))
+  \/ (Kind(t) = "asg" /\ t[2] = "=" /\ TypeKnown(t[4]))
+  \/ (Kind(t) = "cond" /\ TypeKnown(t[3]) /\ TypeKnown(t[4]))
 RECURSIVE Foldable(_)
-IsLit(t) == Kind(t) \in {"num", "str", "tpl"}
 Foldable(t) ==
-  \/ (Kind(t) \in {"un", "bin", "cond"} /\ \E i \in 1..Len(Kids(t)) : IsLit(Kids(t)[i]))
+  \/ (Kind(t) = "bin" /\ t[2] \in {"??", "||", "&&"} /\ TypeKnown(t[3]))
+  \/ (Kind(t) = "bin" /\ t[2] \notin {"??", "||", "&&"} /\ TypeKnown(t[3]) /\ TypeKnown(t[4]))
+  \/ (Kind(t) = "cond" /\ TypeKnown(t[2]))
+  \/ (Kind(t) = "un" /\ TypeKnown(t[3]))
   \/ \E i \in 1..Len(Kids(t)) : Foldable(Kids(t)[i])
 
 (***************************************************************************)
